@@ -134,12 +134,67 @@ def ethtx_binding(v, pid, w, focus, sz, seed, corrupt_fn=None, tag=""):
     return cov_total, first
 
 
+def c06_lane_vectors(v, w, tier, pid):
+    """C06 relies on lane isolation: an Ethereum message that reaches the EVM handler through the Cosmos lane (listed beside other
+    messages, nested in authz exec at any depth) skips every check of the Ethereum lane (replay protection, signature = sender,
+    nonce).  The shapes of Lanes.tla that contain an Ethereum message outside the Ethereum lane (TLC enumerates them) are built as
+    real transactions, run through the real application and judged by TraceLanes.tla: all must be refused."""
+    import re
+    import checks_lanes
+    vlib.build("vh_lanes")
+    d = w.sub("lanes-mc")
+    vlib.stage_spec(d)
+    r = vlib.tlc(d, "Lanes_mc", "Lanes_mc.cfg", workers=1, timeout=3000)
+    if r["violated"]:
+        raise Infra("design model Lanes_mc violates its own laws:\n" + r["out"][-2000:])
+    v.add_mc(r)
+    allv = [json.loads(x) for x in vlib.read_lines(os.path.join(d, "vectors.ndjson"))]
+
+    def has_eth(sh):
+        return any("eth" in m.get("leaf", []) for m in sh.get("msgs", []))
+    pick = [x for x in allv if has_eth(x["shape"]) and x["expect"]["lane"] != "eth" and x["shape"]["mode"] in ("deliver", "check")]
+    controls = [x for x in allv if x["expect"]["lane"] == "eth" and x["expect"]["verdict"] == "accept" and x["shape"]["mode"] == "deliver"][:40]
+    cap = 2500 if tier == "quick" else 100000
+    step = max(1, len(pick) // cap)
+    pick = pick[::step] + controls
+    if len(pick) < 100:
+        raise Infra("lane vectors: only %d shapes with an Ethereum message outside the Ethereum lane" % len(pick))
+    for i, x in enumerate(pick):
+        x["vec"] = i + 1
+    vp = os.path.join(d, "c06-vectors.ndjson")
+    with open(vp, "w") as f:
+        f.write("\n".join(json.dumps(x) for x in pick) + "\n")
+    lines = checks_lanes.lanes_run_vectors(w, vp, "lanes-run")
+    errs, cov, rt = checks_lanes.lanes_validate(w, "lanes-val", lines)
+    v.cov["states"] += rt["distinct"]
+    v.cov["transitions"] += rt["generated"]
+    by = {}
+    for ln, g, dt in errs:
+        by.setdefault("Lane%s/%s" % (g, dt), []).append(ln)
+    for sig, lns in sorted(by.items()):
+        bad = [lines[i - 1] for i in lns[:20]]
+        ids = [json.loads(x).get("vec") for x in bad if '"ev":"Vector"' in x]
+        vecs = [json.dumps(pick[i - 1]) for i in ids if i]
+        rp = vlib.save_replay(pid, re.sub(r"[^A-Za-z0-9_.-]", "_", sig)[:80], [(vecs, "vectors.ndjson"), (bad, "trace.ndjson")],
+                              "an Ethereum message outside the Ethereum lane was not refused: law %s, %d vectors" % (sig, len(lns)))
+        v.violation(sig, rp, "%d vector(s), e.g. %s" % (len(lns), bad[0][:500]))
+    nvec = sum(1 for x in lines if '"ev":"Vector"' in x)
+    v.cov["traces_validated_against_impl"] += nvec - sum(1 for ln, g, dt in errs if '"ev":"Vector"' in lines[ln - 1])
+    v.cov["evaluations"] += nvec
+    log("lane vectors: %d shapes with an Ethereum message outside the Ethereum lane (+%d sole-eth controls) run in check / deliver mode, %d laws broken"
+        % (len(pick) - len(controls), len(controls), len(by)))
+    return {"lane.vectors": nvec}
+
+
 @register("C04", "C05", "C06", "C13")
 def check_ethtx(pid, tier, seed, replay):
     v = Verdict(pid, tier, seed)
     w = Work(pid)
     try:
         focus = FOCUS[pid]
+        if replay and os.path.exists(os.path.join(replay, "vectors.ndjson")):
+            import checks_lanes
+            return checks_lanes.lanes_replay(pid, w, replay)
         if replay:
             r = validate_dir_copy(w, replay, focus)
             if r["err"]:
@@ -158,6 +213,8 @@ def check_ethtx(pid, tier, seed, replay):
                          "frames, creations, invalid txs, Cosmos sends) run through the real FinalizeBlock/Commit; non-trivial = "
                          "Ethereum txs that passed admission (counted per outcome class by the trace specification)")
         v.cov["samples"] = [json.loads(x) for x in first[2:5]]
+        if pid == "C06":
+            v.cov["classes"].update(c06_lane_vectors(v, w, tier, pid))
         v.assumptions = ["gas used, gas before refund and frame exit statuses are observed (hook H1), not modelled",
                          "numbers scaled below 2^31 (small-magnitude genesis)", "go-ethereum interpreter trusted"]
         if not vlib.known_findings().get(pid) and v.violations:
